@@ -10,6 +10,7 @@ import (
 	"path/filepath"
 	"regexp"
 	"strings"
+	"unicode/utf8"
 
 	eparser "github.com/gardenbed/emerge/internal/ebnf/parser"
 	east "github.com/gardenbed/emerge/internal/ebnf/parser/ast"
@@ -22,7 +23,7 @@ func init() {
 		level: "exploration",
 		rule: "for ~40 (quick: 14) valid specifications in two layouts: EVERY single-token deletion, EVERY insertion and replacement by each of the 22 token kinds, and EVERY truncation, at every position; plus stray characters (# % & ' ~ ` etc.), lone @ $ \", unterminated string / pattern / comment at every token gap. " +
 			"For each text that is no longer a specification the reference reader gives the first offending element; the error text of spec.Parse, ebnf ast.Parse and Parser.Parse (and of the CLI for a sample) must contain <file>:<line>:<col> of exactly that element; for a text that merely ends early it must not contain the position of any token present; " +
-			"replacing everything after the offending element by 7 different tails (three of them with bytes that are not UTF-8 further down) must not change the message. Bytes that are not UTF-8 (7 forms) after 15 kinds of separator (line breaks without indentation, comments spanning lines ...) at every token gap: the error must carry line:column of the first such byte. The same single-token edits after an EARLIER well-formedness defect (an unknown $NAME): the position of the first offending token must still be reported. non-trivial = offending element is not the first token; distinct by text.",
+			"replacing everything after the offending element by 9 different tails (five of them with bytes that are not UTF-8, directly behind the offending element or further down) must not change the message. Bytes that are not UTF-8 (7 forms) after 15 kinds of separator (line breaks without indentation, comments spanning lines ...) at every token gap: the error must carry line:column of the first such byte. The same single-token edits after an EARLIER well-formedness defect (an unknown $NAME): the position of the first offending token must still be reported. non-trivial = offending element is not the first token; distinct by text.",
 		assumptions: []string{"a text that has a syntax error is 'rejected for' it even when an earlier well-formedness defect (unknown $NAME) is present, as the unchanged spec.Parse does (it collects such defects and goes on); only spec.Parse, the CLI's entry point, is held to this, and other diagnostics may accompany the position", "first offending element per the reference reader R1 (greedy recursive descent = LR correct-prefix behaviour, cross-validated by C04 on all sequences to length 9/12)"},
 		floorQuick:  10000, floorThorough: 200000,
 		run: runC20,
@@ -145,7 +146,12 @@ func c20Check(c *ctx, name, text string, tailTest bool) {
 	}
 	prefix := string(rs[:cut])
 	base := ""
-	for i, tail := range []string{"\n", " ;\n", "\n grammar again ; start = ;\n", " \"x\" | \n/* open", "\n# ~", "\n\xff\n", " \n/* c */ x \xc3(\n", "\n\n\n// Latin-1: caf\xe9\n"} {
+	for i, tail := range []string{"\n", " ;\n", "\n grammar again ; start = ;\n", " \"x\" | \n/* open", "\n# ~", "\n\xff\n", "\xff", "\xc3\n;", " \n/* c */ x \xc3(\n", "\n\n\n// Latin-1: caf\xe9\n"} {
+		if kind != "syntax" && !utf8.ValidString(tail[:1]) {
+			// directly behind an INCOMPLETE lexical element (an open string, a lone $) the undecodable byte is itself the
+			// first character no specification can continue with: which of the two is named is not judged
+			continue
+		}
 		t2 := prefix + tail
 		rd2 := refRead(t2)
 		// precondition: the reference still sees the same first offending element
